@@ -58,6 +58,25 @@ func (f *fake) ReadByteWithTimeout(timeout time.Duration) (byte, error) {
 	}
 }
 
+// per-case accumulators (one case at a time per process), flushed by flush()
+var acc = map[string]int{}
+var kinds = map[string]bool{}
+
+func flush(c *mon.Case) {
+	for k, v := range acc {
+		if k == "evals" {
+			c.Evals(v)
+		} else {
+			c.Count(k, v)
+		}
+		delete(acc, k)
+	}
+	for k := range kinds {
+		c.Distinct("event_kinds", k)
+		delete(kinds, k)
+	}
+}
+
 type call struct {
 	from, to int // script positions consumed: [from,to)
 	ev       term.Event
@@ -113,7 +132,7 @@ func decode(c *mon.Case, items []item) ([]call, bool) {
 		from := f.pos
 		f.reads = f.reads[:0]
 		ev, err := term.VerifReadEvent(f)
-		c.Count("readevent_calls", 1)
+		acc["readevent_calls"]++
 		if len(f.reads) == 0 {
 			c.Violation("total:no-read", "readEvent returned without reading a byte", wit(nil))
 			return calls, false
@@ -135,7 +154,7 @@ func decode(c *mon.Case, items []item) ([]call, bool) {
 			if rd.res != 'b' {
 				failed = true
 				if rd.res == 't' {
-					c.Count("timeouts_inside_sequence", 1)
+					acc["timeouts_inside_sequence"]++
 				}
 			}
 		}
@@ -146,11 +165,11 @@ func decode(c *mon.Case, items []item) ([]call, bool) {
 		calls = append(calls, call{from, f.pos, ev, err})
 		switch k := errKind(err); k {
 		case "nil":
-			c.Distinct("event_kinds", fmt.Sprintf("%T", ev))
+			kinds[fmt.Sprintf("%T", ev)] = true
 		case "seq":
-			c.Count("seq_errors", 1)
+			acc["seq_errors"]++
 		case "timeout":
-			c.Count("timeout_errors", 1)
+			acc["timeout_errors"]++
 		case "eof":
 			if f.pos < len(items) {
 				c.Violation("total:early-eof", "EOF reported before the script was consumed", wit(nil))
@@ -314,11 +333,19 @@ func checkTail(c *mon.Case, sig string, items []item, calls []call, textFrom int
 // phases
 
 func runRandom(c *mon.Case) {
+	defer flush(c)
 	r := c.Rand
+	var nt []string
+	defer func() {
+		if len(nt) > 0 {
+			c.Nontrivial("random", nt)
+			c.Count("scripts_with_esc", len(nt))
+		}
+	}()
 	for k := 0; k < 200; k++ {
 		items := randomScript(r)
 		calls, ok := decode(c, items)
-		c.Evals(1)
+		acc["evals"]++
 		if !ok {
 			return
 		}
@@ -328,9 +355,9 @@ func runRandom(c *mon.Case) {
 			hasGap = hasGap || it.gap
 		}
 		if hasEsc {
-			c.Nontrivial("random", showItems(items))
+			nt = append(nt, showItems(items))
 			if hasGap {
-				c.Count("scripts_with_esc_and_gap", 1)
+				acc["scripts_with_esc_and_gap"]++
 			}
 		}
 		if k == 0 {
@@ -353,6 +380,8 @@ const exhCases = 64
 // a length bound, with no pause or one pause at every position, followed by a
 // pause and a short plain text that must come out intact.
 func runExhaustive(c *mon.Case) {
+	defer flush(c)
+	c.Nontrivial("exh", c.I)
 	maxLen := c.Env.Pick(4, 5)
 	tail := []rune("q好")
 	idx := 0
@@ -377,15 +406,12 @@ func runExhaustive(c *mon.Case) {
 				textFrom := len(items)
 				items = append(items, textItems(nil, tail, 0)...)
 				calls, ok := decode(c, items)
-				c.Evals(1)
-				c.Count("exhaustive_scripts", 1)
+				acc["evals"]++
+				acc["exhaustive_scripts"]++
 				if !ok || !checkTail(c, "lossless:after-pause", items, calls, textFrom, tail) {
 					stop = true
 					return
 				}
-			}
-			if len(word) >= 3 {
-				c.Nontrivial("exh", string(word))
 			}
 		}
 		idx++
@@ -402,7 +428,14 @@ func runExhaustive(c *mon.Case) {
 }
 
 func runPlain(c *mon.Case) {
+	defer flush(c)
 	r := c.Rand
+	var nt []string
+	defer func() {
+		if len(nt) > 0 {
+			c.Nontrivial("plain", nt)
+		}
+	}()
 	for k := 0; k < 100; k++ {
 		rs := printableText(r, 24)
 		var items []item
@@ -416,7 +449,7 @@ func runPlain(c *mon.Case) {
 			items = append(items, item{gap: true})
 			textFrom = len(items)
 			items = append(items, textItems(r, rs, 15)...)
-			c.Count("resync_scripts", 1)
+			acc["resync_scripts"]++
 		case 2: // ASCII-heavy text (every printable ASCII character, incl. those used in escape sequences)
 			rs = rs[:0]
 			for n := 1 + r.Intn(30); n > 0; n-- {
@@ -432,7 +465,7 @@ func runPlain(c *mon.Case) {
 			items = append(items, item{gap: true})
 		}
 		calls, ok := decode(c, items)
-		c.Evals(1)
+		acc["evals"]++
 		if !ok {
 			return
 		}
@@ -443,12 +476,12 @@ func runPlain(c *mon.Case) {
 		if !checkTail(c, sig, items, calls, textFrom, rs) {
 			return
 		}
-		c.Count("plain_runes", len(rs))
+		acc["plain_runes"] += len(rs)
 		for _, x := range rs {
-			c.Count(fmt.Sprintf("runes_utf8_len_%d", utf8.RuneLen(x)), 1)
+			acc[fmt.Sprintf("runes_utf8_len_%d", utf8.RuneLen(x))]++
 		}
 		if len(rs) > 0 {
-			c.Nontrivial("plain", string(rs), mode)
+			nt = append(nt, string(rs))
 		}
 		if k == 0 {
 			c.Sample("plain-text", map[string]any{"script": showItems(items), "text": string(rs)})
@@ -461,6 +494,7 @@ func runPlain(c *mon.Case) {
 // looks. The event stream must equal the one obtained through the scripted
 // byte source, which ties the fake to the real fileReader contract.
 func runE2E(c *mon.Case) {
+	defer flush(c)
 	r := c.Rand
 	var items []item
 	switch r.Intn(3) {
@@ -547,7 +581,7 @@ func runE2E(c *mon.Case) {
 func Spec() *mon.Spec {
 	return &mon.Spec{
 		ID: "C31", Level: "exploration",
-		Rule: "case = batch of scripts for the event decoder (term.readEvent through a scripted byte source: bytes, pauses that outlast every finite timeout, EOF at the end). Every readEvent call is checked: returns exactly one of event/error, reads at least one item, only its first read may wait forever, no read after a read that timed out. Phases: random (biased to ESC/CSI/SS3/mouse/digits/invalid UTF-8 with random pauses), exhaustive (ESC + every word of length <= 4 (quick) / 5 (thorough) over 14 symbols, with one pause at every position, followed by a pause and plain text that must come out intact), plain (printable runes of all UTF-8 lengths, pauses only at character boundaries, also after random junk + pause: exactly one unmodified key event per rune), e2e (same script through term.NewReader on an os.Pipe must give the same events as through the scripted source). Non-trivial = script containing ESC (random), word of length >= 3 (exhaustive), non-empty text (plain), script replayed on the real pipe reader (e2e); distinct by script.",
+		Rule: "case = batch of scripts for the event decoder (term.readEvent through a scripted byte source: bytes, pauses that outlast every finite timeout, EOF at the end). Every readEvent call is checked: returns exactly one of event/error, reads at least one item, only its first read may wait forever, no read after a read that timed out. Phases: random (biased to ESC/CSI/SS3/mouse/digits/invalid UTF-8 with random pauses), exhaustive (ESC + every word of length <= 4 (quick) / 5 (thorough) over 14 symbols, with one pause at every position, followed by a pause and plain text that must come out intact), plain (printable runes of all UTF-8 lengths, pauses only at character boundaries, also after random junk + pause: exactly one unmodified key event per rune), e2e (same script through term.NewReader on an os.Pipe must give the same events as through the scripted source). Non-trivial = case (a batch of 200 random scripts containing at least one ESC script / one residue class of the exhaustive word set / a batch of 100 texts / one script replayed on the real pipe reader); distinct by the scripts in the batch. Script totals are in the n_* counters.",
 		Assumptions: []string{
 			"'block past its timeout' is restated logically: inside one readEvent call only the first read may use a negative timeout and a timed-out read ends the call",
 			"pauses inside the UTF-8 encoding of one character are not generated for the losslessness oracle: read_rune.go documents a 10 ms inter-byte timeout for continuation bytes, so such a stream is not 'plain text arriving normally'; they are generated for the totality oracle",
@@ -561,7 +595,7 @@ func Spec() *mon.Spec {
 			{Name: "e2e", Quick: 640, Thorough: 8000, Run: runE2E, Timeout: 30 * time.Second},
 		},
 		Floors: map[string]int{
-			"distinct_nontrivial": 50000, "readevent_calls": 500000, "timeouts_inside_sequence": 50000,
+			"distinct_nontrivial": 1000, "scripts_with_esc": 50000, "readevent_calls": 500000, "timeouts_inside_sequence": 50000,
 			"seq_errors": 30000, "exhaustive_scripts": 200000, "plain_runes": 100000,
 			"runes_utf8_len_1": 10000, "runes_utf8_len_2": 10000, "runes_utf8_len_3": 10000, "runes_utf8_len_4": 10000,
 			"resync_scripts": 5000, "e2e_readevent_calls": 1000, "e2e_real_timeouts": 30, "event_kinds": 4,
